@@ -248,7 +248,9 @@ func oracleC12CLI(p *Pair, env *Env, a [][]byte) *Failure {
 		arg = fmt.Sprintf("%s-chain%d", id, k)
 	}
 	rulesRel := "rules/REQUEST-" + id[:3] + "-APPLICATION-ATTACK-X.conf"
-	t := Tree{"regex-assembly/" + arg + ".ra": src, rulesRel: content, "regex-assembly/include/": nil, "rules/other.data": []byte("x\n")}
+	t := Tree{"regex-assembly/" + arg + ".ra": src, rulesRel: content, "regex-assembly/include/": nil, "rules/other.data": []byte("x\n"),
+		// hidden entries among the assembly files: not assembly files, and no reason to stop looking for them
+		"regex-assembly/.DS_Store": []byte("\x00\x01Bud1"), "regex-assembly/.gitkeep": {}, "regex-assembly/." + arg + ".ra.swp": []byte("b0VIM\n")}
 	// two more rules, walked before and after the rule under test in --all runs, kept up to date
 	if id[:3] != "000" && id[:3] != "999" {
 		t["regex-assembly/000001.ra"] = []byte("first\n")
